@@ -445,7 +445,12 @@ fn iofault_case(run_seed: u64, tier: Tier) -> Case {
     let mut srng = rng.fork("sched");
     // low-preemption schedules: the fault space here is the failing call
     let q = if plan.clients.is_empty() { *srng.pick(&[1000u32, 990, 900]) } else { *srng.pick(&[900u32, 700, 500]) };
-    let sched = SchedSpec { strategy: Strategy::Sticky { q_permille: q }, seed: srng.next_u64() };
+    let mut sched = SchedSpec { strategy: Strategy::Sticky { q_permille: q }, seed: srng.next_u64() };
+    // one plan in five runs under the uniformly random (fair) scheduler instead: a failing read then
+    // also meets a flush or compaction that completes inside the reader's unlocked window
+    if rng.fork("sched-kind").chance(1, 5) {
+        sched.strategy = Strategy::Random;
+    }
     let mut params = BTreeMap::new();
     // boundary plans are about a handful of specific calls (the length query, the padding write, the
     // fragment headers): enumerate nearly all of their positions also in the quick tier
@@ -459,7 +464,7 @@ fn iofault_spec() -> CheckSpec {
         level: "fault_enumeration",
         rule: "one evaluation = one faulted run: a plan (4-40 ops quick, -150 thorough: puts, deletes, batches, gets after writes, flushes, compact_range, clean reopen; 40% of the plans end with 2-3 concurrent writers on disjoint key sets so that group commits run under faults) is first executed without faults to number its filesystem calls (all kinds: mkdir, list, open, read, len/size, create, write, rename, remove, lock), then re-executed with the same scheduler seed once per (call position, mode) with mode in {transient: that call fails, sticky: that call and all later ones fail, partial write: a failing write leaves a prefix behind (write calls only)}. Quick tier: <=30 positions per base run, stratified by (call kind, file class); thorough: all positions. Oracle during the run: every call returns Ok or Err (a panic is a violation); a get that returns Ok must return the value of the last Ok write or of a failed write issued after it. After disarming, closing and reopening: every key must be explainable by the Ok writes plus a subset of the failed writes, failed put-only batches all-or-nothing, and the reopen must succeed if anything was acknowledged. distinct_nontrivial = distinct coverage signatures (fault site = mode x call kind x file class, shapes).",
         assumptions: vec![
-            "one injected failure per run (single position; sticky = persistent from that position)".into(),
+            "one injected failure per run (single position; sticky = persistent from that position), plus, in a third of the faulted runs, one transient failure at a drawn call of the recovery that follows".into(),
             "no short reads/writes without error, no EINTR: not injected because no listed property speaks about them".into(),
             "hangs/panics of background work under a sticky (persistent) fault are counted, not reported: C09 is conditional on the filesystem making progress".into(),
         ],
